@@ -145,11 +145,14 @@ class WindowConsumer(TableConsumer):
 
 
 def _sweep_worker(args):
-    tname, lo, hi, policy, nao = args
+    tname, lo, hi, policy, nao, warn = args
+    import logging
+    logging.disable(logging.CRITICAL)
     from pylatexenc.latexencode import UnicodeToLatexEncoder
     tab = table(tname)
+    kw = {} if warn else dict(unknown_char_warning=False)      # warn: the default setting (a warning is logged per unknown character)
     enc = UnicodeToLatexEncoder(conversion_rules=[tname], replacement_latex_protection='braces', unknown_char_policy=policy,
-                                non_ascii_only=nao, unknown_char_warning=False)
+                                non_ascii_only=nao, **kw)
     bad = []
     n = 0
     for cp in range(lo, hi):
@@ -163,7 +166,7 @@ def _sweep_worker(args):
                 ok = st == 'ok' and val == exp
             if not ok and len(bad) < 20:
                 bad.append((s, repr(val), exp))
-    return tname, policy, nao, n, bad
+    return tname, policy, nao, warn, n, bad
 
 
 def run_codepoint_windows(ctx):
@@ -194,14 +197,16 @@ def run_codepoint_windows(ctx):
     # whole code space through the transcription of Encoder.tla validated above (instantiated replay beyond TLC's range)
     step = 0x2000
     top = 0x30000 if quick else 0x110000
-    tasks = [(tname, lo, min(lo + step, top), policy, nao)
-             for tname in ('defaults', 'unicode-xml') for policy, nao in (('fail', False), ('unihex', False), ('replace', True))
+    tasks = [(tname, lo, min(lo + step, top), policy, nao, warn)
+             for tname in ('defaults', 'unicode-xml')
+             for policy, nao, warn in (('fail', False, False), ('unihex', False, True), ('replace', True, True), ('keep', False, True))
              for lo in range(0, top, step)]
     n = 0
-    for tname, policy, nao, k, bad in common.pool_map(_sweep_worker, tasks):
+    for tname, policy, nao, warn, k, bad in common.pool_map(_sweep_worker, tasks):
         n += k
         for s, got, exp in bad:
-            ctx.violation('output-differs', dict(s=s, codepoints=[ord(c) for c in s], table=tname, scheme='braces', policy=policy, nao=nao),
+            ctx.violation('output-differs', dict(s=s, codepoints=[ord(c) for c in s], table=tname, scheme='braces', policy=policy, nao=nao,
+                                                  default_warning_setting=warn),
                           detail=dict(model=('ValueError' if exp is None else exp), impl=got),
                           sig=dict(clause='output-differs', table=tname))
     ctx.evaluations += n
@@ -454,8 +459,9 @@ def replay(case):
         return st == 'ok' and case.get('clause') != 'partial-output-differs'
     if 'table' in c and 'policy' in c and 'nao' in c:
         from pylatexenc.latexencode import UnicodeToLatexEncoder
+        kw = {} if c.get('default_warning_setting') else dict(unknown_char_warning=False)
         enc = UnicodeToLatexEncoder(conversion_rules=[c['table']], replacement_latex_protection=c['scheme'],
-                                    unknown_char_policy=c['policy'], non_ascii_only=c['nao'], unknown_char_warning=False)
+                                    unknown_char_policy=c['policy'], non_ascii_only=c['nao'], **kw)
         st, val = guarded(enc.unicode_to_latex, c['s'])
         exp = port_encode(c['s'], table(c['table']), c['scheme'], c['policy'], c['nao'])
         print('encoder', repr(c['s']), c['table'], c['policy'], '->', st, repr(val), '; rule semantics:', repr(exp) if exp is not None else 'ValueError')
